@@ -528,6 +528,11 @@ func fetchVisibility(r *Runner, rng *sysgen.RNG, res *HistResult) {
 		pod := &api.PodSandbox{Id: fmt.Sprintf("fetchpod-%d-%d", r.Hist, i), Name: want.Name, Namespace: "default", Uid: "u",
 			Linux: &api.LinuxPodSandbox{CgroupParent: "/kubepods/besteffort/podx"}}
 		d := time.Duration(rng.Intn(300)) * time.Microsecond
+		if i == 7 || i == 23 {
+			// a kubelet that answers late but within the fetch's own timeout (1 s): the reader has to wait for it
+			d = time.Duration(300+rng.Intn(450)) * time.Millisecond
+			res.Stats["c15_fetches_answered_late"]++
+		}
 		r.Inst.RM.Lock()
 		if i%2 == 1 {
 			// the pod is already known (a Synchronize listed it just before its RunPodSandbox arrives, with a pod-resources
